@@ -177,7 +177,7 @@ fn histories(prop: &str, thorough: bool, seed: u64, rep: &mut Report) {
         // changed) and numbers of equal value but different spelling (content = spelling)
         rep.checks.push("C14: Value order is total and consistent with equality; equal values hash alike (all pairs, triples)".into());
         let mut leaves: Vec<RefValue> = vec![RefValue::Null, RefValue::Bool(false), RefValue::Bool(true), RefValue::Str("".into()), RefValue::Str("a".into()), RefValue::Str("b".into())];
-        for n in ["0", "-0", "1", "1.0", "10e-1", "100", "1e2", "2", "-1", "1.5", "15e-1"] { leaves.push(RefValue::Num(n.into())); }
+        for n in ["0", "-0", "1", "1.0", "10e-1", "100", "1e2", "2", "-1", "1.5", "15e-1", "9", "10", "5.5", "20", "-10", "-9"] { leaves.push(RefValue::Num(n.into())); }
         let mut vals = leaves.clone();
         for a in &leaves { vals.push(RefValue::Arr(vec![a.clone()])); vals.push(RefValue::Obj(vec![("k".into(), a.clone())])); }
         for a in leaves.iter().step_by(2) { for b in leaves.iter().step_by(3) {
@@ -197,6 +197,19 @@ fn histories(prop: &str, thorough: bool, seed: u64, rep: &mut Report) {
             if a == b && hash_of(a) != hash_of(b) { rep.violation("equal values hash alike", "value-hash", format!("{:?} vs {:?}", vals[i], vals[j]), "".into()); }
             if a.clone() != *a { rep.violation("clones equal their originals", "value-clone", format!("{:?}", vals[i]), "".into()); }
         } }
+        // every triple of leaves (orders that mix numeric and textual comparison of numbers are
+        // typically pairwise lawful but cyclic), wrapped once as well
+        let nl = leaves.len();
+        for wrap in 0..3usize {
+            let w = |x: &RefValue| -> Value { to_real(&match wrap { 0 => x.clone(), 1 => RefValue::Arr(vec![RefValue::Bool(true), x.clone()]), _ => RefValue::Obj(vec![("id".into(), x.clone())]) }) };
+            let ws: Vec<Value> = leaves.iter().map(|x| w(x)).collect();
+            for i in 0..nl { for j in 0..nl { for k in 0..nl {
+                rep.eval(false, 0);
+                if ws[i].cmp(&ws[j]) != std::cmp::Ordering::Greater && ws[j].cmp(&ws[k]) != std::cmp::Ordering::Greater && ws[i].cmp(&ws[k]) == std::cmp::Ordering::Greater {
+                    rep.violation("Value order transitive", "value-trans-leaf", format!("{:?} <= {:?} <= {:?} (wrap {})", leaves[i], leaves[j], leaves[k], wrap), "but the first is greater than the third".into());
+                }
+            } } }
+        }
         let step = if thorough { 1 } else { 3 };
         for a in reals.iter().step_by(step) { for b in reals.iter().step_by(step) { for c in reals.iter().step_by(step) {
             if a.cmp(b) != std::cmp::Ordering::Greater && b.cmp(c) != std::cmp::Ordering::Greater && a.cmp(c) == std::cmp::Ordering::Greater { rep.violation("Value order transitive", "value-trans", format!("{:?} <= {:?} <= {:?}", from_real(a), from_real(b), from_real(c)), "".into()); }
@@ -259,5 +272,37 @@ fn unordered(thorough: bool, _seed: u64, rep: &mut Report) {
         if got != want { rep.violation("unordered_eq == multiset equality", "pair", format!("{:?} ~ {:?}", a, b), format!("real={} reference={}", got, want)); }
         if (reals[i] == reals[j]) && !got { rep.violation("== implies unordered_eq", "implied", format!("{:?}", a), "".into()); }
     } }
+    // leaves: numbers are compared by spelling (1.5 is not 1.50), strings exactly, literals
+    rep.checks.push("C15: leaves compare by content (number spelling, string text) under unordered_eq".into());
+    let leaves: Vec<RefValue> = ["1", "1.0", "1.5", "1.50", "15e-1", "100", "1e2", "0", "-0", "0.0"].iter().map(|n| RefValue::Num(n.to_string())).chain(vec![RefValue::Str("a".into()), RefValue::Str("a ".into()), RefValue::Null, RefValue::Bool(true), RefValue::Bool(false)]).collect();
+    let mut lpool: Vec<RefValue> = leaves.clone();
+    for a in &leaves { lpool.push(RefValue::Arr(vec![a.clone()])); lpool.push(RefValue::Obj(vec![("a".into(), a.clone()), ("b".into(), RefValue::Num("2".into()))])); lpool.push(RefValue::Obj(vec![("b".into(), RefValue::Num("2".into())), ("a".into(), a.clone())])); }
+    let lreals: Vec<Value> = lpool.iter().map(to_real).collect();
+    for (i, a) in lpool.iter().enumerate() { for (j, b) in lpool.iter().enumerate() {
+        let want = ref_unordered_eq(a, b);
+        let got = lreals[i].as_unordered() == lreals[j].as_unordered();
+        rep.eval(i != j, 0x5000_0000_0000 | (i as u64) << 16 | j as u64);
+        if got != want { rep.violation("unordered_eq == multiset equality", "leaf-pair", format!("{:?} ~ {:?}", a, b), format!("real={} reference={}", got, want)); }
+    } }
+    // sizes around machine-word boundaries (a bitmap of matched entries is a natural implementation)
+    rep.checks.push("C15: large objects (31..129 entries) against their shuffles, clones and one-entry edits".into());
+    for n in [1usize, 7, 8, 9, 15, 16, 17, 31, 32, 33, 63, 64, 65, 127, 128, 129] {
+        let es: Vec<(String, RefValue)> = (0..n).map(|i| (format!("k{}", i % (n / 2 + 1)), RefValue::Num((i % 5).to_string()))).collect();
+        let a = RefValue::Obj(es.clone());
+        let mut rev = es.clone(); rev.reverse();
+        let mut rot = es.clone(); rot.rotate_left(n / 3);
+        let mut edit = es.clone(); let last = edit.len() - 1; edit[last].1 = RefValue::Num("9".into());
+        let mut dup = es.clone(); dup[0] = dup[last].clone();
+        for (what, b) in [("clone", a.clone()), ("reversed", RefValue::Obj(rev)), ("rotated", RefValue::Obj(rot)), ("one value changed", RefValue::Obj(edit)), ("one entry duplicated over another", RefValue::Obj(dup))] {
+            let want = ref_unordered_eq(&a, &b);
+            let (ra, rb) = (to_real(&a), to_real(&b));
+            let got = std::panic::catch_unwind(std::panic::AssertUnwindSafe(|| ra.as_unordered() == rb.as_unordered()));
+            rep.eval(true, 0x6000_0000_0000 | (n as u64) << 8 | what.len() as u64);
+            match got {
+                Ok(g) => if g != want { rep.violation("unordered_eq == multiset equality", "large", format!("{} entries vs {}", n, what), format!("real={} reference={}", g, want)); },
+                Err(_) => rep.violation("unordered_eq panics", "large-panic", format!("{} entries vs {}", n, what), "panic".into()),
+            }
+        }
+    }
     rep.sample("{k:1,k:1,k:2} vs {k:1,k:2,k:2}".into());
 }
